@@ -36,12 +36,14 @@ type c08Case struct {
 	SWR        int64     `json:"swr"`
 	Validators string    `json:"validators"`
 	Backend    string    `json:"backend"`
+	Status     int       `json:"status"`
 	Steps      []c08Step `json:"steps"`
 }
 
 func genC08(r *rand.Rand) c08Case {
 	c := c08Case{NOther: r.IntN(3), Vary: chance(r, 0.7), L0: pick(r, []int64{5, 10, 60}), SWR: pick(r, []int64{0, 30, 30}),
 		Validators: pick(r, []string{"etag", "lm", "both"}), Backend: pick(r, []string{"mem", "mem", "mem", "mem", "fs", "fsaes"})}
+	c.Status = pick(r, []int{200, 200, 200, 302, 307, 404, 403})
 	if !c.Vary {
 		c.NOther = 0
 	}
@@ -116,7 +118,7 @@ func c08Run(r *run.Runner, c c08Case) {
 		if c.SWR > 0 {
 			cc += ", stale-while-revalidate=" + itoa(c.SWR)
 		}
-		rs := RespSpec{Status: 200, CC: []string{cc}, BodySize: 20, Vary: varyNow}
+		rs := RespSpec{Status: c.Status, CC: []string{cc}, BodySize: 20, Vary: varyNow}
 		if c.Validators != "lm" {
 			rs.ETag = `"c` + strconv.Itoa(etagGen) + `"`
 		}
@@ -138,8 +140,12 @@ func c08Run(r *run.Runner, c c08Case) {
 		if st == nil || !uc.Conditional() {
 			return Render(ptr(baseSpec(curL)), uc.Enter, uc.Serial)
 		}
+		bgDelay := 0.0
+		if uc.Background {
+			bgDelay = 3 // the background validation is in flight for a while
+		}
 		if st.Kind == "304" {
-			rs := RespSpec{Status: 304, Vary: varyNow}
+			rs := RespSpec{Status: 304, Vary: varyNow, DelayS: bgDelay}
 			if st.NewL > 0 {
 				cc := "max-age=" + itoa(st.NewL)
 				if c.SWR > 0 {
@@ -179,6 +185,7 @@ func c08Run(r *run.Runner, c c08Case) {
 			varyNow = []string{"X-A, X-B"}
 		}
 		rs := baseSpec(st.NewL)
+		rs.DelayS = bgDelay
 		if st.XNew {
 			rs.Extra = map[string][]string{"X-New": {fmt.Sprintf("s%d", stepIdx)}}
 		}
@@ -235,8 +242,23 @@ func c08Run(r *run.Runner, c c08Case) {
 		}
 		pending = st
 		ex := w.Do(sim.ReqSpec{URL: url, Header: hdr("chain")})
-		w.Settle(ex, time.Second)
+		inflightVariant := ""
+		if st.Mode == "swr" && c.Vary && len(ex.BgCalls()) == 1 {
+			// while the background validation is in flight, a new variant is stored
+			time.Sleep(time.Second)
+			inflightVariant = fmt.Sprintf("o-inflight-%d", si)
+			nv := w.Do(sim.ReqSpec{URL: url, Header: hdr(inflightVariant)})
+			otherTok[inflightVariant] = nv.BodySerial()
+			r.Count("variants_stored_during_background_validation", 1)
+		}
+		w.Settle(ex, 4*time.Second)
 		pending = nil
+		if inflightVariant != "" {
+			ov := w.Do(sim.ReqSpec{URL: url, Header: hdr(inflightVariant)})
+			if len(ov.Calls()) > 0 || ov.BodySerial() != otherTok[inflightVariant] {
+				r.Violation("other-variant-lost", "stored-during-background-validation", fmt.Sprintf("variant %s, stored while a background validation was in flight, is no longer served from the store after it finished; %s", inflightVariant, ov.Summary()), obsOf())
+			}
+		}
 		calls := ex.Calls()
 		if len(calls) != 1 || !calls[0].Conditional() {
 			r.Inconclusive(fmt.Sprintf("step %d: expected exactly one conditional upstream call, got %s", si, ex.Summary()))
@@ -262,7 +284,8 @@ func c08Run(r *run.Runner, c c08Case) {
 			n, _ := strconv.Atoi(st.Age)
 			carriedAge = time.Duration(n) * time.Second
 		}
-		ageBase := carriedAge
+		// the response delay of the validation counts towards the age (RFC 9111 4.2.3)
+		ageBase := carriedAge + vcall.Exit.Sub(vcall.Enter)
 		ageExact := st.Kind == "200" || st.Age != "" || carriedAge == 0
 		validatedAt := vcall.Exit
 		// follow-ups inside the new lifetime
@@ -275,6 +298,9 @@ func c08Run(r *run.Runner, c c08Case) {
 				at = validatedAt.Add((sec(expectL) - ageBase) / 2)
 			default:
 				at = validatedAt.Add(time.Duration(f * float64(time.Second)))
+			}
+			if now := time.Now(); at.Before(now) {
+				at = now // time has already passed (settling a background validation)
 			}
 			if at.Sub(validatedAt)+ageBase+time.Second >= sec(expectL) {
 				continue
@@ -317,7 +343,7 @@ func c08Run(r *run.Runner, c c08Case) {
 				want := fu.TCall.Sub(validatedAt) + ageBase
 				lowWant := want
 				if !ageExact {
-					lowWant = fu.TCall.Sub(validatedAt) // dropping the carried Age is legitimate too
+					lowWant = fu.TCall.Sub(validatedAt) + vcall.Exit.Sub(vcall.Enter) // dropping the carried Age is legitimate too
 				}
 				got, err := strconv.Atoi(fu.Header.Get("Age"))
 				if err != nil || time.Duration(got)*time.Second < lowWant-2*time.Second || time.Duration(got)*time.Second > want+time.Second {
@@ -339,9 +365,6 @@ func c08Run(r *run.Runner, c c08Case) {
 		curL = expectL
 		// the age base shortens the remaining lifetime for the next wait
 		lastValidated = validatedAt.Add(-ageBase)
-		if st.Kind == "200" {
-			lastValidated = validatedAt
-		}
 	}
 	if anyChecked {
 		b := fmt.Sprintf("%+v", c)
